@@ -42,4 +42,6 @@ AssertOffsets(S, name) ==
 
 (* which parts of the output may depend on which option (C09 non-interference) *)
 StructOptKey(o) == << o.bmv, o.bmh, o.enc, o.serde, o.mv >>
-=============================================================================
+(* what the documented default options stand for: wgpu only, plain Rust arrays, no formatter, no validation (a default validator knows every capability) *)
+DefaultOptions == [ bmv |-> FALSE, bmh |-> FALSE, enc |-> FALSE, serde |-> FALSE, mv |-> "rust", rustfmt |-> FALSE, validate |-> "none" ]
+=========================================================================
